@@ -241,7 +241,10 @@ Definition plain_char (a : ascii) : bool :=
   negb (Ascii.eqb a "#") && negb (Ascii.eqb a ":") && negb (Ascii.eqb a "=")
   && negb (Ascii.eqb a "'") && negb (Ascii.eqb a """") && negb (Ascii.eqb a NL).
 Definition text_ok (s : string) : bool := str_all plain_char s && edge_ok s.       (* may be empty *)
-Definition mark_ok (s : string) : bool := text_ok s && str_nonempty s.
+(* comment texts (block above, inline): anything but quote characters and newlines - '#', ':' and '=' included *)
+Definition cmark_char (a : ascii) : bool :=
+  negb (Ascii.eqb a "'") && negb (Ascii.eqb a """") && negb (Ascii.eqb a NL).
+Definition mark_ok (s : string) : bool := str_all cmark_char s && edge_ok s && str_nonempty s.
 Definition type_char (a : ascii) : bool :=
   negb (Ascii.eqb a "#") && negb (Ascii.eqb a ":") && negb (Ascii.eqb a "=").
 (* the state (quote, skip) in which _split_at_comment leaves a text; None: it found a comment in it *)
@@ -311,9 +314,9 @@ Proof. apply str_all_no_char. Qed.
 Lemma text_ok_parts s : text_ok s = true -> str_all plain_char s = true /\ edge_ok s = true.
 Proof. intros H. now apply andb_true_iff in H. Qed.
 
-Lemma mark_ok_parts s : mark_ok s = true -> str_all plain_char s = true /\ edge_ok s = true /\ s <> "".
+Lemma mark_ok_parts s : mark_ok s = true -> str_all cmark_char s = true /\ edge_ok s = true /\ s <> "".
 Proof.
-  intros H. apply andb_true_iff in H as [H1 H2]. apply text_ok_parts in H1 as [Ha Hb].
+  intros H. apply andb_true_iff in H as [H1 H2]. apply andb_true_iff in H1 as [Ha Hb].
   repeat split; try assumption. now apply str_nonempty_ne.
 Qed.
 
@@ -361,15 +364,16 @@ Section CommentLine.
     assert (Hstrip : strip line = "# " ++ c) by (apply strip_pad_l; assumption).
     unfold vw, view; cbn [v_isdef v_quote v_empty v_iscomment v_comment].
     repeat split.
-    - apply no_colon_not_def. unfold line.
-      assert (has_char ":" ind = false) by (now apply spaces_no).
-      assert (has_char ":" c = false) by (now apply plain_no).
-      nochar.
+    - (* everything from the first '#' on is cut off before the line is examined *)
+      unfold cdef, contains_def, line.
+      rewrite before_char_app_no by (now apply spaces_no).
+      change ("# " ++ c) with (String "#" (" " ++ c)). rewrite before_char_hit, append_nil_r.
+      now rewrite (spaces_no ":" ind eq_refl Hind).
     - apply orb_false_iff. split; apply contains_none; unfold line.
       + assert (has_char cD ind = false) by (now apply spaces_no).
-        assert (has_char cD c = false) by (now apply plain_no). nochar.
+        assert (has_char cD c = false) by (now apply (str_all_no_char cmark_char)). nochar.
       + assert (has_char cS ind = false) by (now apply spaces_no).
-        assert (has_char cS c = false) by (now apply plain_no). nochar.
+        assert (has_char cS c = false) by (now apply (str_all_no_char cmark_char)). nochar.
     - rewrite Hstrip. reflexivity.
     - rewrite Hstrip. reflexivity.
     - unfold comment_of, line.
